@@ -156,4 +156,16 @@ def stability(comp):
         return {"clause": "serialise-raises-2", "exc": type(e).__name__}
     if b2 != b1:
         return {"clause": "bytes-changed", "b1": b1.decode("utf-8", "replace")[:300], "b2": b2.decode("utf-8", "replace")[:300]}
+    # a third trip, and serialising the SAME objects again: nothing happens only the second time
+    try:
+        if comp.to_ical() != b1 or c2.to_ical() != b2:
+            return {"clause": "bytes-changed", "b1": b1.decode("utf-8", "replace")[:300], "b2": "(the same object serialised twice)"}
+    except Exception as e:   # noqa: BLE001
+        return {"clause": "serialise-raises-2", "exc": type(e).__name__}
+    r3 = real_parse(b2, False)
+    if r3[0] != "ok":
+        return {"clause": "reparse-rejected", "how": r3[1], "b1": b2.decode("utf-8", "replace")[:300]}
+    a3 = full_alpha(r3[1][0])
+    if a3 != a2:
+        return {"clause": "tree-changed", "a1": a2, "a2": a3}
     return None
